@@ -144,6 +144,18 @@ class IsInst(Term):
         return 'isinstance(%r, %s)' % (self.t, self.tn)
 
 
+class IsNone(Term):
+    """`t is None` (neg=False) / `t is not None` (neg=True)"""
+    def __init__(self, t, neg):
+        self.t, self.neg = t, neg
+
+    def syms(self):
+        return []
+
+    def __repr__(self):
+        return '%r is %sNone' % (self.t, 'not ' if self.neg else '')
+
+
 class Eq(Term):
     def __init__(self, a, b):
         self.a, self.b = a, b
@@ -356,6 +368,9 @@ class ActionEval(object):
             self.env[st.target.id] = Cat(cur, self.ev(st.value))
             return
         if isinstance(st, ast.AugAssign):
+            t = st.target
+            if isinstance(t, ast.Subscript) and isinstance(t.value, ast.Name) and t.value.id in self.env:
+                self.env[t.value.id] = DictT(self.env.get('__dict_src__', Opaque('dict')))
             return  # dict element update inside loops (importPart)
         if isinstance(st, ast.If):
             t = self.test(st.test)
@@ -386,6 +401,10 @@ class ActionEval(object):
         if isinstance(st, ast.For):
             # p_importPart: builds a dict from a list of pairs
             self.env['__dict_src__'] = self.ev(st.iter)
+            elem = Opaque('element', [self.env['__dict_src__']])
+            for tt in (st.target.elts if isinstance(st.target, ast.Tuple) else [st.target]):
+                if isinstance(tt, ast.Name):
+                    self.env[tt.id] = elem
             for s in st.body:
                 try:
                     self.stmt(s)
@@ -423,6 +442,16 @@ class ActionEval(object):
                         return True
                     if not mine:
                         return False
+            return v
+        if isinstance(v, IsNone):
+            if isinstance(v.t, Const):
+                return (v.t.v is None) != v.neg
+            av = self.av_of(v.t)
+            if av is not None and not av.top:
+                if av.always_none():
+                    return not v.neg
+                if not av.none:
+                    return v.neg
             return v
         if isinstance(v, Eq):
             if isinstance(v.a, Const) and isinstance(v.b, Const):
@@ -511,6 +540,8 @@ class ActionEval(object):
                 if isinstance(a, Const) and isinstance(b, Const):
                     return Const(a.v == b.v)
                 return Eq(a, b)
+            if isinstance(e.ops[0], (ast.Is, ast.IsNot)) and isinstance(b, Const) and b.v is None:
+                return IsNone(a, isinstance(e.ops[0], ast.IsNot))
             if isinstance(e.ops[0], ast.In) and isinstance(b, DictT):
                 return Opaque('in-dict')
             raise Unsupported('compare %s' % norm(e))
@@ -651,6 +682,7 @@ class GrammarShapes(object):
         self.nonterminals = set(self.by_lhs)
         self.av = dict((n, AV()) for n in self.nonterminals)
         self.terms = {}      # Prod -> term
+        self.terms_k = {}    # Prod -> term with keyword terminals replaced by their (unique) source word
         self.tests = {}      # Prod -> truth tests
         self.unsupported = {}
         # token type -> source words
@@ -676,6 +708,39 @@ class GrammarShapes(object):
         term = ev.run()
         return term, ev.truth_tests
 
+    def kw_word(self, sym):
+        if sym.startswith("'"):
+            return sym.strip("'")
+        if sym in self.nonterminals:
+            return None
+        words = self.token_words.get(sym)
+        if words and len(words) == 1:
+            return list(words)[0]
+        return None
+
+    def kw_subst(self, t, rhs):
+        def f(t):
+            if isinstance(t, Sym):
+                w = self.kw_word(rhs[t.i - 1]) if 0 < t.i <= len(rhs) else None
+                return Const(w) if w is not None else t
+            if isinstance(t, Tup):
+                return Tup([f(x) for x in t.items])
+            if isinstance(t, Lst):
+                return Lst([f(x) for x in t.items])
+            if isinstance(t, Cat):
+                a, b = f(t.a), f(t.b)
+                if isinstance(a, Const) and isinstance(b, Const) and isinstance(a.v, str) and isinstance(b.v, str):
+                    return Const(a.v + b.v)
+                return Cat(a, b)
+            if isinstance(t, Idx):
+                return simplify(Idx(f(t.t), t.i))
+            if isinstance(t, Slc):
+                return Slc(f(t.t), t.lo, t.hi)
+            if isinstance(t, Cond):
+                return Cond(f(t.test), f(t.a), f(t.b))
+            return t
+        return f(t)
+
     def _fixpoint(self):
         for it in range(40):
             changed = False
@@ -687,10 +752,12 @@ class GrammarShapes(object):
                     term, tests = Opaque('unsupported'), []
                 self.terms[p] = term
                 self.tests[p] = tests
+                kterm = self.kw_subst(term, p.rhs)
+                self.terms_k[p] = kterm
                 if p.lhs == 'empty':
                     v = av_none()
                 else:
-                    v = term_av(term, lambda i, p=p: self.sym_av(p.rhs[i - 1]) if 0 < i <= len(p.rhs) else av_top())
+                    v = term_av(kterm, lambda i, p=p: self.sym_av(p.rhs[i - 1]) if 0 < i <= len(p.rhs) else av_top())
                 if self.av[p.lhs].join(v):
                     changed = True
             if not changed:
